@@ -120,6 +120,10 @@ def fresh_name(rng, used_fn, used_wire, wild_p=0.25):
 
 
 def gen_args(rng, maxn=3):
+    if maxn >= 3 and rng.random() < 0.06:
+        # many same-typed parameters: positional mix-ups (field10 vs field2 ...) only show here
+        ty = rng.choice([P("u32"), P("String"), P("i64")])
+        return [{"name": "q%d" % i, "ty": ty} for i in range(rng.choice([10, 11, 12, 13]))]
     n = rng.choice([0, 1, 1, 2, 2, maxn])
     names = rng.sample(["a", "b", "amount", "to", "flag", "items", "memo", "x1", "y_2", "who"], n)
     out = []
@@ -180,6 +184,14 @@ def gen_program(rng, idx, wild_p=0.25, n_ifaces=None, with_ce=None):
         src = rng.choice(execs)
         if casing.wire_name(src["name"]) not in used_wire["sudo"]:
             pass  # two methods cannot share a Rust name inside one impl; cross-kind sharing is done via interfaces above
+    # a handler may name the context type of another kind with the same shape (the macro only looks at the attribute)
+    for m in cms:
+        if m["msg"]["kind"] == "instantiate" and rng.random() < 0.3:
+            m["ctx_ty"] = "ExecCtx"
+        if m["msg"]["kind"] == "migrate" and rng.random() < 0.3:
+            m["ctx_ty"] = "SudoCtx"
+        if m["msg"]["kind"] == "sudo" and rng.random() < 0.15:
+            m["ctx_ty"] = "MigrateCtx"
     rng.shuffle(cms)
     contract = {"name": "Ct", "error": "ContractError" if ce else None, "methods": cms,
                 "ifaces": [{"module": i["module"], "alias": i["alias"]} for i in ifaces]}
@@ -250,7 +262,7 @@ def render_module(prog):
     out.append("    pub struct Ct;")
     cc = dict(ct)
     cc["ifaces"] = [{"module": i["module"], "alias": i.get("alias")} for i in ct["ifaces"]]
-    cc["methods"] = [dict(m, ctx_ty=None, body=handler_body("ct", m)) for m in ct["methods"]]
+    cc["methods"] = [dict(m, ctx_ty=m.get("ctx_ty"), body=handler_body("ct", m)) for m in ct["methods"]]
     src = gen.render_contract(cc)
     out.append("    #[entry_points]")
     out.append("    #[contract]")
